@@ -881,6 +881,136 @@ func c08R6(r *Report) {
 				return true
 			}, 0)
 			r.Check(ok2, "R6", "Conn.Write/no-encrypt-after-error", c.Pos(), "nothing is encrypted once a write error is latched", "Conn.Write advances the keystream although a previous write failed: the keystream runs ahead of the wire")
+			// a write larger than the staging buffer goes out in chunks: each chunk is the next unsent part of the
+			// caller's bytes — src = b[n : n+len(dst)] for the loop's own progress counter n
+			inLoop := false
+			var head *ssa.BasicBlock
+			for _, l := range naturalLoops(w) {
+				if l.Blocks[c.Block()] {
+					inLoop = true
+					head = l.Head
+				}
+			}
+			if inLoop && len(c.Call.Args) == 3 {
+				okChunk := false
+				why := "the source is not a slice expression of the caller's buffer"
+				if src, isS := c.Call.Args[2].(*ssa.Slice); isS {
+					why = "the source slice does not start at the loop's progress counter"
+					// the progress counter: what the loop's own exit test compares with the length of the caller's buffer (a
+					// header phi, or the cell of a named result)
+					var progress ssa.Value
+					if len(head.Instrs) > 0 {
+						if iff, isIf := head.Instrs[len(head.Instrs)-1].(*ssa.If); isIf {
+							if cmp, isB := iff.Cond.(*ssa.BinOp); isB {
+								for _, side := range []ssa.Value{cmp.X, cmp.Y} {
+									sv := stripIntConv(side)
+									if ph, isPhi := sv.(*ssa.Phi); isPhi && ph.Block() == head {
+										progress = ph
+									}
+									if ld, isLd := sv.(*ssa.UnOp); isLd && ld.Op == token.MUL {
+										if al, isAl := ld.X.(*ssa.Alloc); isAl {
+											progress = al
+										}
+									}
+								}
+							}
+						}
+					}
+					isProgress := func(v ssa.Value) bool {
+						v = stripIntConv(v)
+						if progress == nil {
+							return false
+						}
+						if v == progress {
+							return true
+						}
+						ld, isLd := v.(*ssa.UnOp)
+						return isLd && ld.Op == token.MUL && ld.X == progress
+					}
+					if src.Low != nil {
+						if isProgress(src.Low) {
+							okChunk = true
+							// and is as long as the destination
+							if dst, isD := c.Call.Args[1].(*ssa.Slice); isD && src.High != nil && dst.High != nil {
+								dl := polyOf(dst.High, 0)
+								if dst.Low != nil {
+									dl = polyAdd(dl, polyOf(dst.Low, 0), -1)
+								}
+								lenOK := false
+								if hb, isAdd := stripIntConv(src.High).(*ssa.BinOp); isAdd && hb.Op == token.ADD {
+									for _, pr := range [][2]ssa.Value{{hb.X, hb.Y}, {hb.Y, hb.X}} {
+										if isProgress(pr[0]) {
+											if d := polyAdd(polyOf(pr[1], 0), dl, -1); d.ok && len(d.t) == 0 {
+												lenOK = true
+											}
+										}
+									}
+								}
+								if !lenOK {
+									okChunk = false
+									why = "the source chunk is not as long as the destination chunk"
+								}
+							}
+						}
+					}
+				}
+				// the other idiom: the loop re-slices what is left (for rest := b; len(rest) > 0; { chunk := rest[:k]; rest =
+				// rest[len(chunk):]; … }): the source is (a prefix of) the header phi, which advances by len(source)
+				judged := true
+				if !okChunk {
+					srcV := c.Call.Args[2]
+					base := srcV
+					if sl, isS := base.(*ssa.Slice); isS && sl.Low == nil {
+						base = sl.X
+					}
+					var restPhi *ssa.Phi
+					var find func(v ssa.Value, d int)
+					find = func(v ssa.Value, d int) {
+						if d > 3 || restPhi != nil {
+							return
+						}
+						switch x := v.(type) {
+						case *ssa.Phi:
+							if x.Block() == head {
+								restPhi = x
+								return
+							}
+							for _, e := range x.Edges {
+								find(e, d+1)
+							}
+						case *ssa.Slice:
+							if x.Low == nil {
+								find(x.X, d+1)
+							}
+						}
+					}
+					find(base, 0)
+					if restPhi != nil {
+						adv := false
+						for _, e := range restPhi.Edges {
+							if sl, isS := e.(*ssa.Slice); isS && sl.X == ssa.Value(restPhi) && sl.High == nil && sl.Low != nil {
+								if lc, isC := stripIntConv(sl.Low).(*ssa.Call); isC {
+									if bi, isB := lc.Call.Value.(*ssa.Builtin); isB && bi.Name() == "len" && (lc.Call.Args[0] == srcV || lc.Call.Args[0] == base) {
+										adv = true
+									}
+								}
+							}
+						}
+						okChunk = adv
+						if !adv {
+							why = "what is left of the caller's bytes does not advance by the length of the chunk that was encrypted"
+						}
+					} else if _, isParamSlice := srcV.(*ssa.Slice); !isParamSlice {
+						judged = false
+					}
+				}
+				if !judged {
+					r.Info("R6", "Conn.Write/chunk-is-next-unsent-part", c.Pos(), "the chunking idiom is not one the rule knows: not judged")
+				} else {
+					r.Check(okChunk, "R6", "Conn.Write/chunk-is-next-unsent-part", c.Pos(), "each chunk encrypted is b[n:n+m] for the loop's progress counter n",
+						"in Conn.Write's chunk loop "+why+": for a write larger than the staging buffer the second and later chunks re-encrypt other bytes than the ones they stand for — lengths and keystream stay right, so the payload of a large Piece or Bitfield is silently corrupted on an RC4 connection")
+				}
+			}
 		})
 		// (2) after the underlying write, a non-nil error (incl. short write) is stored in c.err before returning
 		allInstrs(w, func(in ssa.Instruction) {
